@@ -137,7 +137,11 @@ def handle (j : Json) : Except String Json := do
     pure (ofExcept (fun log => Json.arr (log.map jEv).toArray) (traverse c bfs inv start tsu))
   | "cycle_check" => do
     let c ← getCircuit j
-    pure (ofExcept Json.bool (hasCycleCheck c))
+    -- `check_circuit_has_no_cycles(circuit, start_gates=...)`: the optional start set
+    let start := match j.getObjVal? "start" with
+      | .ok (Json.arr xs) => some (xs.toList.filterMap (fun x => x.getStr?.toOption))
+      | _ => none
+    pure (ofExcept Json.bool (hasCycleCheckFrom c start))
   | "tseytin" => do
     let c ← getCircuit j
     let outs := match j.getObjVal? "outs" with
